@@ -6,11 +6,19 @@ import (
 	"fmt"
 	"regexp"
 	"strings"
+	"time"
 
 	"github.com/titpetric/vuego"
 )
 
 // C03: conditional chains and uniform truthiness.
+
+type c03Level int
+type c03Price float64
+type c03Small uint8
+type c03Big int64
+type c03Flag bool
+type c03Name string
 
 type c03Node struct {
 	kind string // if elseif else plain ws comment
@@ -243,10 +251,37 @@ func runC03(r *Run) {
 		nontrivial := v.K != "bool" && !(v.K == "int")
 		r.Case("truthy-fn", "CTruthyFn "+v.Coq(), B(got), map[string]any{"value": v.Desc()}, map[string]string{"class": classOf(v)}, nontrivial)
 	}
+	// named types: the table is about kinds, so a zero of a named numeric type is falsy like its plain kind
+	for _, nv := range []struct {
+		desc string
+		v    any
+		want bool
+	}{
+		{"time.Duration(0)", time.Duration(0), false}, {"time.Duration(5)", time.Duration(5), true},
+		{"c03Level(0) [named int]", c03Level(0), false}, {"c03Level(3)", c03Level(3), true},
+		{"c03Price(0) [named float64]", c03Price(0), false}, {"c03Price(1.5)", c03Price(1.5), true},
+		{"c03Small(0) [named uint8]", c03Small(0), false}, {"c03Small(2)", c03Small(2), true},
+		{"c03Big(0) [named int64]", c03Big(0), false}, {"c03Big(-1)", c03Big(-1), true},
+		{"c03Flag(false) [named bool]", c03Flag(false), false}, {"c03Flag(true)", c03Flag(true), true},
+		{"c03Name(\"\") [named string]", c03Name(""), false}, {"c03Name(\"x\")", c03Name("x"), true},
+	} {
+		got := vuego.VerifIsTruthy(nv.v)
+		r.Eval("truthy-named:"+nv.desc, true, nil)
+		r.Count("truthy-kind:named")
+		if got != nv.want {
+			r.Fail("IsTruthy differs from the documented table", map[string]string{"oracle": "truthy-table", "class": "named-type"}, map[string]any{"value": nv.desc, "IsTruthy": got})
+		}
+		// and in a chain: the value decides the branch like its plain kind does
+		out, err := c03RenderAny(`<p v-if="v">IF</p><p v-else>ELSE</p><i v-show="v">s</i>`, map[string]any{"v": nv.v})
+		wantBranch := map[bool]string{true: "IF", false: "ELSE"}[nv.want]
+		if err != nil || !strings.Contains(out, ">"+wantBranch+"<") {
+			r.Fail("a value of a named type takes another branch than its plain kind", map[string]string{"oracle": "truthy-table", "class": "named-type-chain"}, map[string]any{"value": nv.desc, "output": out, "err": fmt.Sprint(err)})
+		}
+	}
 	// positions
 	type pos struct {
 		name, coq, tpl string
-		observe      func(out string) bool
+		observe        func(out string) bool
 	}
 	has := func(s string) func(string) bool { return func(out string) bool { return strings.Contains(out, s) } }
 	visible := func(out string) bool {
